@@ -71,7 +71,12 @@ int main()
                 o.choices = choices;
             if(!styles.empty())
                 o.styles = styles;
+            const bool ro = flags.find('r') != std::string::npos; // C11: the image is mapped read-only, any write faults
+            if(ro)
+                gb.readonly(true);
             auto out = vh::guarded([&] { run_dump(mi, mode, p, img.size(), o); }, 5000);
+            if(ro)
+                gb.readonly(false);
             cases++;
             if(out.kind != vh::OK)
                 std::cout << "FAIL " << id << " OUTCOME " << (out.kind == vh::HANDLER ? "HANDLER " : out.kind == vh::FAULT ? "FAULT " : "TIMEOUT ")
